@@ -39,6 +39,8 @@ TOP = {
                  "PV.TB.C01_similarity", "PV.TB.C01_eliminated", "PV.TB.C02_unit_left", "PV.TB.C02_unit_right", "PV.TB.C02_adjoint",
                  "PV.TB.C02_Htilde_star", "PV.TB.C03_gauge"],
     "TwoBlockCor": ["PV.TB.code_least_action", "PV.TB.C03_unique", "PV.TB.same_as_general", "PV.TB.natural"],
+    "Instance": ["PV.Inst.filt", "PV.Inst.blocks", "PV.Inst.twoBlocks", "PV.Inst.unperturbed", "PV.Inst.gapped"],
+    "GeneratedInst": ["PV.Inst.trivMainEqs", "PV.Inst.trivMainEqs2b", "PV.Inst.trivNonHermEqs"],
     "Unique": ["PV.lsa_unique", "PV.code_least_action", "PV.C03_unique", "PV.shift_cov", "PV.scale_cov", "PV.natural"],
     "UniqueNH": ["PV.nh_unique", "PV.NH.code_least_action", "PV.natural_nh", "PV.C05_hermitian_limit"],
 }
